@@ -204,7 +204,7 @@ type c17Op struct {
 	K   string     `json:"k"`             // set setx get del adv take
 	C   int        `json:"c,omitempty"`   // cache index (take: see the callers)
 	Key int        `json:"key,omitempty"` // key index (take: see the callers)
-	E   int        `json:"e,omitempty"`   // setx: expiry in ms
+	E   int64      `json:"e,omitempty"`   // setx: expiry in ms (int64: expiries above 2^31 ms also on a 32-bit int)
 	N   int        `json:"n,omitempty"`   // adv: ticks; churn: iterations
 	M   int        `json:"m,omitempty"`   // churn: 0 = Set+Del cycling over 3 extra keys, 1 = Set of N distinct extra keys (evicted by the limit)
 	T   []c17Taker `json:"t,omitempty"`   // take: the callers
@@ -216,13 +216,13 @@ type c17Op struct {
 // judged by its own model.
 type c17Cfg struct {
 	Limit int    `json:"limit"`
-	Exp   int    `json:"exp"`
+	Exp   int64  `json:"exp"`
 	Name  string `json:"name,omitempty"` // "" = no WithName (default name)
 }
 
 type c17Case struct {
 	Limit int     `json:"limit"`          // 0 = unlimited
-	Exp   int     `json:"exp"`            // cache expiry in ms
+	Exp   int64   `json:"exp"`            // cache expiry in ms
 	Name  string  `json:"name,omitempty"` // WithName of cache 0, "" = none
 	// Shared: both caches are built from ONE []CacheOption slice (WithLimit(Limit),
 	// WithName(Name)); C2.Limit and C2.Name then equal those of cache 0
@@ -264,14 +264,14 @@ func c17KeyIndex(label string) int {
 // a cached key) or at the next tick (today: new key); required is only that it
 // is gone by then, that operations keep completing and that other entries are
 // unaffected.
-func c17Sub(expMs int) bool {
-	return int64(expMs)*1000*95/100-1000 < 1000000
+func c17Sub(expMs int64) bool {
+	return expMs*1000*95/100-1000 < 1000000
 }
 
 // c17MaxMs encodes time.Duration(math.MaxInt64), the "never expires" idiom.
 const c17MaxMs = math.MaxInt64 / 1000000
 
-func c17Dur(expMs int) time.Duration {
+func c17Dur(expMs int64) time.Duration {
 	if expMs >= c17MaxMs {
 		return math.MaxInt64
 	}
@@ -283,12 +283,12 @@ func c17Dur(expMs int) time.Duration {
 // are ordinary long-expiry entries for the oracle. (Findings expiry-jitter-overflow
 // and set-after-rejected-expiry, fixed in /repo 00e8b57 and e9f3578, see FINDINGS.md;
 // regression replays in /verif/replays/C17.)
-func c17Overflows(expMs int) bool { return c17Dur(expMs) > math.MaxInt64/105*100 }
+func c17Overflows(expMs int64) bool { return c17Dur(expMs) > math.MaxInt64/105*100 }
 
-func c17Window(expMs int) (lo, hi int) {
-	us := int64(expMs) * 1000
-	lo = int((us*95/100 - 1000) / 1000000)
-	hi = int((us*105/100 + 1000) / 1000000)
+func c17Window(expMs int64) (lo, hi int64) { // in ticks; int64: a 100-year expiry has more than 2^31 of them
+	us := expMs * 1000
+	lo = (us*95/100 - 1000) / 1000000
+	hi = (us*105/100 + 1000) / 1000000
 	if lo < 1 {
 		lo = 1
 	}
@@ -303,7 +303,7 @@ func c17Window(expMs int) (lo, hi int) {
 type c17Ent struct {
 	val    int
 	set    int // wheel ticks seen when last set
-	lo, hi int
+	lo, hi int64
 	long   bool // expiry > c17LongMs: never ticked through
 	sub    bool // c17Sub: may be dropped at any time from its Set on
 	free   bool // expiry <= 0: the statement says nothing about its lifetime
@@ -348,7 +348,7 @@ func (m *c17Model) drop(k string) {
 }
 
 // set stores the value; returns the evicted key ("" if none).
-func (m *c17Model) set(k string, val, tick, expMs int) string {
+func (m *c17Model) set(k string, val, tick int, expMs int64) string {
 	lo, hi := c17Window(expMs)
 	if old, live := m.ents[k]; live && !old.long && expMs > c17LongMs {
 		m.classes["reset-short-to-long"] = true
@@ -360,8 +360,8 @@ func (m *c17Model) set(k string, val, tick, expMs int) string {
 		if expMs > 10*c17DayMs {
 			m.classes["set-expiry-over-10-days"] = true
 		}
-	} else if tick+hi > m.shortEnd {
-		m.shortEnd = tick + hi
+	} else if tick+int(hi) > m.shortEnd { // short expiry: hi <= 1260
+		m.shortEnd = tick + int(hi)
 	}
 	m.ents[k] = &c17Ent{val: val, set: tick, lo: lo, hi: hi, long: expMs > c17LongMs, sub: c17Sub(expMs), free: expMs <= 0}
 	switch {
@@ -409,11 +409,11 @@ func (m *c17Model) reconcile(snap map[string]any, T int, what string) string {
 			if e.free {
 				continue
 			}
-			if age >= e.hi {
+			if int64(age) >= e.hi {
 				m.failKey = k
 				return fmt.Sprintf("%s: %s (set at tick %d, window [%d,%d] ticks) still present at tick %d, age %d ticks >= 105%% bound", what, k, e.set, e.lo, e.hi, T, age)
 			}
-			if age >= e.lo {
+			if int64(age) >= e.lo {
 				m.classes["in-window-present"] = true
 			}
 			continue
@@ -433,22 +433,22 @@ func (m *c17Model) reconcile(snap map[string]any, T int, what string) string {
 			m.drop(k)
 			continue
 		}
-		first, lastOK := e.set+e.lo, e.set+e.hi
-		if m.last+1 > first {
-			first = m.last + 1
+		first, lastOK := int64(e.set)+e.lo, int64(e.set)+e.hi
+		if int64(m.last)+1 > first {
+			first = int64(m.last) + 1
 		}
-		if T < lastOK {
-			lastOK = T
+		if int64(T) < lastOK {
+			lastOK = int64(T)
 		}
 		if first > lastOK {
 			m.failKey = k
 			return fmt.Sprintf("%s: %s=%d (set at tick %d, may be dropped for age only %d..%d ticks later) is missing at tick %d (age %d, previous check at tick %d) although not deleted/evicted in the model (model order %v)", what, k, e.val, e.set, e.lo, e.hi, T, age, m.last, m.order)
 		}
 		m.classes["expired"] = true
-		if age == e.lo {
+		if int64(age) == e.lo {
 			m.classes["expired-at-lo"] = true
 		}
-		if age == e.hi {
+		if int64(age) == e.hi {
 			m.classes["expired-at-hi"] = true
 		}
 		if e.lo >= c17Slots {
@@ -513,7 +513,7 @@ func c17Lat(tk c17Taker) time.Duration {
 // are only that all of them return when the execution ends, that nothing is
 // cached, and that the execution is over: a later caller of the key is judged
 // by the normal rules (it must run a fetch of its own).
-func c17CheckGroup(ms []*c17Model, exps []int, op c17Op, nk int, vals, rvals, xvals []int, errs []error, pvals []any, log []c17Ev, what string) string {
+func c17CheckGroup(ms []*c17Model, exps []int64, op c17Op, nk int, vals, rvals, xvals []int, errs []error, pvals []any, log []c17Ev, what string) string {
 	type flight struct {
 		leader  int
 		start   time.Duration
@@ -910,7 +910,7 @@ func c17Run1(c c17Case, classes map[string]bool, known *string) string {
 	type inst struct {
 		cache *Cache
 		m     *c17Model
-		exp   int
+		exp   int64
 	}
 	var insts []*inst
 	cfgs := []c17Cfg{{Limit: c.Limit, Exp: c.Exp, Name: c.Name}}
@@ -1043,8 +1043,8 @@ func c17Run1(c c17Case, classes map[string]bool, known *string) string {
 			minStart := 1 << 30
 			for _, in := range insts {
 				for _, e := range in.m.ents {
-					if s := e.set + e.lo; s < minStart && !e.free {
-						minStart = s
+					if s := int64(e.set) + e.lo; s < int64(minStart) && !e.free {
+						minStart = int(s)
 					}
 				}
 			}
@@ -1091,7 +1091,7 @@ func c17Run1(c c17Case, classes map[string]bool, known *string) string {
 		return f
 	}
 	nextVal := 0
-	doSet := func(in *inst, what, key string, expMs int, custom bool) string {
+	doSet := func(in *inst, what, key string, expMs int64, custom bool) string {
 		cache, m := in.cache, in.m
 		nextVal++
 		val := nextVal
@@ -1109,7 +1109,7 @@ func c17Run1(c c17Case, classes map[string]bool, known *string) string {
 		}
 		if live {
 			classes["reset-live"] = true
-			if now-old.set >= old.lo {
+			if int64(now-old.set) >= old.lo {
 				classes["reset-in-window"] = true
 			}
 			if newPos, ok := wheelPos(cache, key); ok && havePos && now > old.set {
@@ -1380,7 +1380,7 @@ func c17Run1(c c17Case, classes map[string]bool, known *string) string {
 				classes["take-single"] = true
 			}
 			var ms []*c17Model
-			var exps []int
+			var exps []int64
 			for _, in := range insts {
 				ms, exps = append(ms, in.m), append(exps, in.exp)
 			}
@@ -1555,41 +1555,42 @@ func c17Interp(t *testing.T, c c17Case) (v kit.Verdict) {
 
 // ---- generator ----
 
-func c17GenExp(rt *rapid.T, label string) int {
+func c17GenExp(rt *rapid.T, label string) int64 {
 	switch rapid.SampledFrom([]string{"small", "small", "small", "mid", "mid", "rev", "big", "long", "long", "sub", "huge", "max", "nonpos"}).Draw(rt, label+"-class") {
 	case "huge": // scale-free magnitudes below the point where 1.05*e leaves the Duration range
-		return rapid.SampledFrom([]int{30 * c17DayMs, 36500 * c17DayMs, 91250 * c17DayMs, int(math.MaxInt64/105*100/1000000) - 1000}).Draw(rt, label)
+		return rapid.SampledFrom([]int64{30 * c17DayMs, 36500 * c17DayMs, 91250 * c17DayMs, int64(math.MaxInt64/105*100/1000000) - 1000}).Draw(rt, label)
 	case "max": // above MaxInt64/1.05 ns, up to time.Duration(math.MaxInt64) ("never"); finding expiry-jitter-overflow, fixed in 00e8b57
-		return rapid.SampledFrom([]int{c17MaxMs, 104025 * c17DayMs, int(math.MaxInt64/105*100/1000000) + 1000}).Draw(rt, label)
+		return rapid.SampledFrom([]int64{c17MaxMs, 104025 * c17DayMs, int64(math.MaxInt64/105*100/1000000) + 1000}).Draw(rt, label)
 	case "nonpos": // legal to pass, lifetime unspecified by the statement
 		// math.MinInt64/1e6 ms: 1.05 * expiry leaves the Duration range downwards (the
 		// jitter clamps at MinInt64); like every expiry <= 0 run for panics / hangs only
-		return rapid.SampledFrom([]int{0, -1, -1000, math.MinInt64 / 1000000}).Draw(rt, label)
+		return rapid.SampledFrom([]int64{0, -1, -1000, math.MinInt64 / 1000000}).Draw(rt, label)
 	case "sub": // below (or just around) the wheel interval: 1 ms .. 1100 ms
-		return rapid.IntRange(1, 1100).Draw(rt, label)
+		return rapid.Int64Range(1, 1100).Draw(rt, label)
 	case "long": // never ticked through: hours, days, and the multi-day values named in the follow-up
 		switch rapid.SampledFrom([]string{"hours", "days", "named", "named", "over10d"}).Draw(rt, label+"-long") {
 		case "hours":
-			return 60000 * rapid.IntRange(21, 24*60).Draw(rt, label) // 21 min .. 24 h
+			return 60000 * rapid.Int64Range(21, 24*60).Draw(rt, label) // 21 min .. 24 h
 		case "days":
-			return 3600000 * rapid.IntRange(24, 240).Draw(rt, label) // 1 .. 10 days
+			return 3600000 * rapid.Int64Range(24, 240).Draw(rt, label) // 1 .. 10 days
 		case "named":
-			return c17DayMs * rapid.SampledFrom([]int{7, 11, 12, 14, 20, 40}).Draw(rt, label)
+			return c17DayMs * rapid.SampledFrom([]int64{7, 11, 12, 14, 20, 40}).Draw(rt, label)
 		}
-		return 100 * rapid.IntRange(10*c17DayMs/100, 60*c17DayMs/100).Draw(rt, label) // 10 .. 60 days
+		return 100 * rapid.Int64Range(10*c17DayMs/100, 60*c17DayMs/100).Draw(rt, label) // 10 .. 60 days
 	case "small":
-		return 100 * rapid.IntRange(20, 100).Draw(rt, label) // 2 s .. 10 s
+		return 100 * rapid.Int64Range(20, 100).Draw(rt, label) // 2 s .. 10 s
 	case "mid":
-		return 100 * rapid.IntRange(100, 2500).Draw(rt, label) // 10 s .. 250 s
+		return 100 * rapid.Int64Range(100, 2500).Draw(rt, label) // 10 s .. 250 s
 	case "rev":
-		return 100 * rapid.IntRange(2500, 3600).Draw(rt, label) // around one revolution
+		return 100 * rapid.Int64Range(2500, 3600).Draw(rt, label) // around one revolution
 	}
-	return 1000 * rapid.IntRange(360, 1200).Draw(rt, label) // up to 20 min
+	return 1000 * rapid.Int64Range(360, 1200).Draw(rt, label) // up to 20 min
 }
 
 type c17GenKey struct {
-	set, exp int
-	live     bool
+	set  int
+	exp  int64
+	live bool
 }
 
 // c17RawOp is drawn statelessly (so that rapid can delete and shrink single
@@ -1724,7 +1725,7 @@ func c17Gen(rt *rapid.T) c17Case {
 	// several caches in one process: a second cache with its own limit/expiry,
 	// with or without WithName (without: both carry the default name)
 	nc := 1
-	exps := []int{c.Exp}
+	exps := []int64{c.Exp}
 	c.Name = rapid.SampledFrom([]string{"", "", "n", "%s%d%!"}).Draw(rt, "name")
 	if rapid.IntRange(0, 7).Draw(rt, "two-caches") < 3 {
 		nc = 2
@@ -1761,9 +1762,9 @@ func c17Gen(rt *rapid.T) c17Case {
 		case "adv":
 			if (r.mode == "lo" || r.mode == "hi") && gk[r.aim].live && gk[r.aim].exp <= c17LongMs {
 				lo, hi := c17Window(gk[r.aim].exp)
-				tgt := gk[r.aim].set + lo
+				tgt := gk[r.aim].set + int(lo) // short expiry (<= c17LongMs): lo, hi <= 1260
 				if r.mode == "hi" {
-					tgt = gk[r.aim].set + hi
+					tgt = gk[r.aim].set + int(hi)
 				}
 				if n := tgt - now + r.d; n >= 1 {
 					o.N = n
@@ -1772,7 +1773,7 @@ func c17Gen(rt *rapid.T) c17Case {
 			now += o.N
 			for k := range gk {
 				if gk[k].live {
-					if _, hi := c17Window(gk[k].exp); now-gk[k].set >= hi {
+					if _, hi := c17Window(gk[k].exp); int64(now-gk[k].set) >= hi {
 						gk[k].live = false
 					}
 				}
@@ -1821,18 +1822,19 @@ func TestVerif_C17_history(t *testing.T) {
 // 300-slot wheel, and must then be dropped inside the window of the re-set
 // (checked tick by tick by the same interpreter, horizon included).
 func c17EnumerateResets(thorough bool) func(yield func(c17Case) bool) {
-	e1s := []int{3000, 200000, 400000}
-	e2s := []int{3000, 290000, 650000, 12 * c17DayMs, 20 * c17DayMs}
+	e1s := []int64{3000, 200000, 400000}
+	e2s := []int64{3000, 290000, 650000, 12 * c17DayMs, 20 * c17DayMs}
 	kinds := []string{"setx"}
 	if thorough {
-		e1s = []int{2000, 3000, 10000, 200000, 290000, 310000, 400000, 900000}
-		e2s = []int{2000, 10000, 100000, 290000, 310000, 650000, 1200000, 3600000, 12 * c17DayMs, 20 * c17DayMs}
+		e1s = []int64{2000, 3000, 10000, 200000, 290000, 310000, 400000, 900000}
+		e2s = []int64{2000, 10000, 100000, 290000, 310000, 650000, 1200000, 3600000, 12 * c17DayMs, 20 * c17DayMs}
 		kinds = []string{"setx", "del-setx", "set"}
 	}
 	return func(yield func(c17Case) bool) {
 		idx := 0
 		for _, e1 := range e1s {
-			lo1, _ := c17Window(e1)
+			lo64, _ := c17Window(e1)
+			lo1 := int(lo64) // e1 <= 900 s
 			bs := []int{1, lo1 - 1}
 			if thorough {
 				bs = []int{1, 2, 7, lo1 - 1, c17Slots - 1, c17Slots, c17Slots + 1}
